@@ -21,6 +21,20 @@ CLAIMED = {
     },
 }
 
+CLAIMED["C09"] = {
+    "text": "Theorems C09_step / C09_step_legal / C09_step_illegal (for every implementation state and every word, the "
+            "classification and the abstraction of the next state are exactly what the documented diagram, with its recovery rule, "
+            "prescribes; an illegal word is never taken for a legal one) and C09_run (lockstep for every finite word sequence, by "
+            "induction) are proved about a model of ItsPayloadFsmContinuous::advance whose identifiers, per-arm data-id patterns and "
+            "sm! table are regenerated from the source. The model is tied to the compiled code by an EXHAUSTIVE product through "
+            "hook H1: all 11 variants x 256 ids x no_data x packet_done (plus filler bits) and by random walks.",
+    "note": "Trusted: Coq kernel + vm_compute; gen translator; hook H1; harness; extraction + driver; our reading of the puml diagram "
+            "(Spec/Diagram.v, D3/D12). That an illegal word's error is actually emitted at that word is proved at the packet-validator "
+            "level (CdpRunning model) once claimed there.",
+    "technique": "Coq proof: reflective finite simulation check (vm_compute over the full product) + induction over word sequences; exhaustive correspondence via H1",
+    "design_ref": "DESIGN.md section 8, C09",
+}
+
 ALL = ["C%02d" % i for i in range(1, 21)]
 PENDING_REASON = "not claimed yet: the model/proof for this property is still under construction in this development (see DESIGN.md section 12 build order); no check is registered until its theorem file compiles without admits and its correspondence stream runs"
 
@@ -67,7 +81,7 @@ def main():
     print("MANIFEST.json: %d checks, %d not claimed" % (len(checks), len(man["not_applicable"])))
 
 
-HOOK_COMMITS = []
+HOOK_COMMITS = ["f32fed4"]
 NOT_APPLICABLE = {}
 
 if __name__ == "__main__":
